@@ -63,6 +63,25 @@ def analyse_metric(repo: Repo, rep: Report, file: str, cname: str, fwd_atoms: Di
     for v, r, env in t.returns:
         for term in v or ():
             pass
+    # state = attributes written outside the constructor; compute() may depend on the registered accumulators only
+    mutable_state = set()
+    for mname, mfi in ci.methods.items():
+        if mname == "__init__":
+            continue
+        for s_ in ast.walk(mfi.node):
+            tg = s_.targets if isinstance(s_, ast.Assign) else ([s_.target] if isinstance(s_, (ast.AugAssign, ast.AnnAssign)) else [])
+            for t_ in tg:
+                root = t_
+                while isinstance(root, ast.Subscript):
+                    root = root.value
+                ch_ = attr_chain(root) if isinstance(root, ast.Attribute) else None
+                if ch_ and ch_.startswith("self.") and ch_.count(".") == 1:
+                    mutable_state.add(ch_)
+    comp_reads = {attr_chain(a) for a in ast.walk(comp.node) if isinstance(a, ast.Attribute) and isinstance(a.ctx, ast.Load) and attr_chain(a) and attr_chain(a).startswith("self.") and attr_chain(a).count(".") == 1}
+    stale = sorted((comp_reads & mutable_state) - {f"self.{b}" for b in bufs})
+    if stale:
+        rep.violation("ACC", comp, f"compute() reads mutable state {stale}", f"the result of compute() depends on {stale}, which is neither a registered accumulator nor restored by reset(): a value remembered from an earlier accumulation can be returned after reset()/further updates", node=comp.node)
+        n += 1
     rets = returns_of(comp.node)
     if len(rets) != 1:
         rep.undecided("ACC", comp, "compute()", f"{len(rets)} returns")
@@ -156,6 +175,17 @@ def analyse_metric(repo: Repo, rep: Report, file: str, cname: str, fwd_atoms: Di
     rep.check(zeroed == set(written), "ACC", rst, f"reset zeroes {sorted(zeroed)}", "exactly the accumulators update() advances", f"update() advances {sorted(written)} but reset() zeroes {sorted(zeroed)}")
     n += 1
 
+    # ---- compute() is a pure function of the accumulators: whatever it (or any other method) writes must be restored by reset()
+    comp_m = repo.method(ci, "compute")
+    tcw = Terms(comp_m, repo, ci)
+    tcw.run({})
+    for ch, kind, val, st in tcw.attr_writes:
+        n += 1
+        if ch in zeroed:
+            rep.ok("ACC", comp_m, st, "state written by compute() is restored by reset()", node=st, nontrivial=False)
+        else:
+            rep.violation("ACC", comp_m, st, f"compute() writes `{ch}`, which reset() does not restore: after reset() the metric still carries information from the previous accumulation (a value computed before the reset can be returned after it)", node=st)
+
     # ---- forward writes nothing
     fwd = repo.method(ci, "forward")
     tf = Terms(fwd, repo, ci, config=cfg(fwd_atoms), opaque_methods={"_reshape_into_blocks"})
@@ -227,8 +257,19 @@ def rule_blocks(repo: Repo, rep: Report) -> int:
     n = 0
     raises = [s for s in stmts_of(fi.body) if isinstance(s, ast.If) and any(isinstance(x, ast.Raise) for x in s.body) and "%" in unparse(s.test)]
     ok = len(raises) == 1 and match(raises[0].test, "_E % self.block_size != 0") is not None
-    weakened = len(raises) == 1 and isinstance(raises[0].test, ast.BoolOp) and isinstance(raises[0].test.op, ast.And) and any(match(v_, "_E % self.block_size != 0") is not None for v_ in raises[0].test.values)
-    rep.shape(ok, weakened, "BLOCKS", fi, f"divisibility: {unparse(raises[0].test) if raises else '(none)'}", "a size that is not a multiple of block_size is rejected with an error", "non-divisible sizes are not rejected", node=raises[0] if raises else fi.node)
+    whole_batch = False
+    if ok:
+        mE = match(raises[0].test, "_E % self.block_size != 0")["_E"]
+        edefs = [s_.value for s_ in stmts_of(fi.body) if isinstance(s_, ast.Assign) and isinstance(mE, ast.Name) and isinstance(s_.targets[0], ast.Name) and s_.targets[0].id == mE.id]
+        etxt = unparse(edefs[-1]) if edefs else unparse(mE)
+        per_item = ("shape[1:]" in etxt or "remainder_dims" in etxt or "// batch_size" in etxt or "// data.shape[0]" in etxt or "data[0].numel()" in etxt)
+        whole_batch = (not per_item) and (etxt in ("data.numel()", "data.nelement()", "torch.numel(data)") or "data.shape)" in etxt and "shape[1:]" not in etxt)
+        if whole_batch:
+            ok = False
+        elif not per_item:
+            ok = False
+    weakened = whole_batch or len(raises) == 1 and isinstance(raises[0].test, ast.BoolOp) and isinstance(raises[0].test.op, ast.And) and any(match(v_, "_E % self.block_size != 0") is not None for v_ in raises[0].test.values)
+    rep.shape(ok, weakened, "BLOCKS", fi, f"divisibility: {unparse(raises[0].test) if raises else '(none)'}", "a per-item size that is not a multiple of block_size is rejected with an error", "the divisibility test is weakened or applied to the element count of the whole batch: a block size that does not divide one item's length is accepted and blocks straddle batch items", node=raises[0] if raises else fi.node)
     n += 1
     rets = returns_of(fi.node)
     last = rets[-1]
